@@ -115,12 +115,12 @@ type Schema struct {
 // ---------- abstract document ----------
 
 type ALit struct {
-	DT    string // datatype IRI as stored
-	Kind  string // int | bool | time | str
-	Canon string // canonical decoded value: decimal / true|false / unix ns / the string
-	JSON  any    // one JSON spelling (RawNum, string, bool, OObj value object)
-	Alts  []any  // other spellings that give the same RDF lexical form (JSON number spellings etc.)
-	LexAlts []any // spellings with a different lexical form but the same value ("5.0" for "5", another UTC offset, "1" for true)
+	DT      string // datatype IRI as stored
+	Kind    string // int | bool | time | str
+	Canon   string // canonical decoded value: decimal / true|false / unix ns / the string
+	JSON    any    // one JSON spelling (RawNum, string, bool, OObj value object)
+	Alts    []any  // other spellings that give the same RDF lexical form (JSON number spellings etc.)
+	LexAlts []any  // spellings with a different lexical form but the same value ("5.0" for "5", another UTC offset, "1" for true)
 }
 
 type AVal struct {
@@ -138,6 +138,7 @@ type ANode struct {
 	ID     string // "" = blank node
 	Type   *TypeDef
 	Fields []AField
+	Undef  []KV // properties that are not defined by any context (rendered only when the presentation asks for it)
 }
 
 type Fact struct {
@@ -180,12 +181,14 @@ func factsOf(n *ANode, path []string, multi []bool, out *[]Fact) {
 // ---------- generation ----------
 
 type DocGen struct {
+	prime   *big.Int // integers are generated inside the ranges of this prime (default: BN254)
 	r       *Rng
 	sch     *Schema
 	nid     int
 	maxDep  int
 	noGraph bool
 	emptyOK bool // allow empty strings
+	multiPct int // chance (percent) that a field is multi-valued; 0 = default 35
 }
 
 var xsdLitTypes = []string{"integer", "nonNegativeInteger", "positiveInteger", "negativeInteger", "nonPositiveInteger", "boolean", "dateTime", "double", "string", "", "", "custom"}
@@ -253,6 +256,9 @@ func (g *DocGen) litFor(dt string) *ALit {
 			return &ALit{DT: xsdNS + "boolean", Kind: "bool", Canon: strconv.FormatBool(b), JSON: b}
 		case 1:
 			v := int64(r.Intn(2000000)) - 1000000
+			if g.prime != nil && g.prime.BitLen() < 40 {
+				v = int64(r.Intn(100)) - 50
+			}
 			return &ALit{DT: xsdNS + "integer", Kind: "int", Canon: strconv.FormatInt(v, 10), JSON: RawNum(strconv.FormatInt(v, 10)),
 				Alts: []any{RawNum(strconv.FormatInt(v, 10) + ".0"), RawNum(strconv.FormatInt(v, 10) + "e0")}}
 		case 2:
@@ -265,27 +271,36 @@ func (g *DocGen) litFor(dt string) *ALit {
 			return &ALit{DT: xsdNS + "string", Kind: "str", Canon: s, JSON: s}
 		}
 	case strings.HasSuffix(local, "nteger") && strings.HasPrefix(dt, xsdNS):
-		lo, hi := stmtRange(local, hPoseidon().Prime)
+		pr := g.prime
+		if pr == nil {
+			pr = hPoseidon().Prime
+		}
+		lo, hi := stmtRange(local, pr)
 		var v *big.Int
-		switch r.Intn(5) {
-		case 0:
-			v = new(big.Int).Set(lo)
-		case 1:
-			v = new(big.Int).Set(hi)
-		case 2:
+		if pr.BitLen() < 40 {
 			v = r.BigBelow(new(big.Int).Add(new(big.Int).Sub(hi, lo), big.NewInt(1)))
 			v.Add(v, lo)
-		default:
-			span := int64(1000)
-			v = big.NewInt(int64(r.Intn(int(span))))
-			if local == "negativeInteger" || local == "nonPositiveInteger" || (local == "integer" && r.Bool()) {
-				v.Neg(v)
-			}
-			if local == "positiveInteger" {
-				v.Add(v, big.NewInt(1))
-			}
-			if local == "negativeInteger" {
-				v.Sub(v, big.NewInt(1))
+		} else {
+			switch r.Intn(5) {
+			case 0:
+				v = new(big.Int).Set(lo)
+			case 1:
+				v = new(big.Int).Set(hi)
+			case 2:
+				v = r.BigBelow(new(big.Int).Add(new(big.Int).Sub(hi, lo), big.NewInt(1)))
+				v.Add(v, lo)
+			default:
+				span := int64(1000)
+				v = big.NewInt(int64(r.Intn(int(span))))
+				if local == "negativeInteger" || local == "nonPositiveInteger" || (local == "integer" && r.Bool()) {
+					v.Neg(v)
+				}
+				if local == "positiveInteger" {
+					v.Add(v, big.NewInt(1))
+				}
+				if local == "negativeInteger" {
+					v.Sub(v, big.NewInt(1))
+				}
 			}
 		}
 		s := v.String()
@@ -359,7 +374,11 @@ func (g *DocGen) node(td *TypeDef, depth int, forceID bool) *ANode {
 		}
 		f := AField{Term: t}
 		cnt := 1
-		if g.r.Chance(35) {
+		mp := g.multiPct
+		if mp == 0 {
+			mp = 35
+		}
+		if g.r.Chance(mp) {
 			cnt = 2 + g.r.Intn(3)
 		}
 		seen := map[string]bool{}
@@ -395,19 +414,20 @@ func NewDocGen(r *Rng, maxDep int) *DocGen {
 // ---------- rendering ----------
 
 type Presentation struct {
-	r         *Rng
-	shuffle   bool
-	ws        bool
-	altSpell  bool
-	ctxMode   int // 0 inline, 1 by URL, 2 [URL] array
-	aliases   bool
-	labelBN   bool
-	singleArr bool
-	bn        int
-	prefix    string
-	lexAlt    int  // 0 never; 1 only on single-valued properties; 2 anywhere
+	r               *Rng
+	shuffle         bool
+	ws              bool
+	altSpell        bool
+	ctxMode         int // 0 inline, 1 by URL, 2 [URL] array
+	aliases         bool
+	labelBN         bool
+	singleArr       bool
+	bn              int
+	prefix          string
+	lexAlt          int  // 0 never; 1 only on single-valued properties; 2 anywhere
 	usedArrayLexAlt bool // a lexical respelling was used inside a multi-valued property (or inside a member of one)
-	underMulti int
+	underMulti      int
+	withUndef       bool
 }
 
 func (g *DocGen) termDef(t *Term, p *Presentation) any {
@@ -521,6 +541,11 @@ func (g *DocGen) renderNode(n *ANode, p *Presentation) OObj {
 			v = vals[0]
 		}
 		o = append(o, KV{f.Term.Name, v})
+	}
+	if p.withUndef {
+		for _, kv := range n.Undef {
+			o = append(o, kv)
+		}
 	}
 	if p.shuffle {
 		o = shuffleObj(o, p.r)
